@@ -66,21 +66,21 @@ program :
 		}
 	 | statements 
 		{ 
-			gritslex.(*lexer).processesOrFunctionsRes = $1
+			gritslex.(*lexer).processesOrFunctionsRes = reverseStatements($1)
 		};
 /*	 | LET functions IN processes END { }; */
 
 /* A program may consist a combination of processes, function definitions and types */
 statements : process_def             { $$ = []unexpandedProcessOrFunction{$1} }
-		   | process_def statements  { $$ = append([]unexpandedProcessOrFunction{$1}, $2...) }
+		   | process_def statements  { $$ = append($2, $1) /* built back to front, reversed once in program */ }
 		   | function_def            { $$ = []unexpandedProcessOrFunction{$1} }
-		   | function_def statements { $$ = append([]unexpandedProcessOrFunction{$1}, $2...) }
+		   | function_def statements { $$ = append($2, $1) /* built back to front, reversed once in program */ }
 		   | type_def 				 { $$ = []unexpandedProcessOrFunction{$1} }
-		   | type_def statements 	 { $$ = append([]unexpandedProcessOrFunction{$1}, $2...) }
+		   | type_def statements 	 { $$ = append($2, $1) /* built back to front, reversed once in program */ }
 		   | assuming_def 			 { $$ = []unexpandedProcessOrFunction{$1} }
-		   | assuming_def statements { $$ = append([]unexpandedProcessOrFunction{$1}, $2...) }
+		   | assuming_def statements { $$ = append($2, $1) /* built back to front, reversed once in program */ }
 		   | exec_def 			 	 { $$ = []unexpandedProcessOrFunction{$1} }
-		   | exec_def statements 	 { $$ = append([]unexpandedProcessOrFunction{$1}, $2...) };
+		   | exec_def statements 	 { $$ = append($2, $1) /* built back to front, reversed once in program */ };
 
 /* A process is defined using the prc keyword */
 process_def : 
